@@ -23,9 +23,13 @@ CONSTANTS
   \* @type: Str;
   BadBytes,    \* marker field for undecodable bytes
   \* @type: Set(Bool);
-  FailModes    \* subset of BOOLEAN: whether, in a run, every destruction attempt fails (the resources were removed
-               \* behind the tracker's back: unlink raises); no transition depends on it -- a failed destruction
-               \* is reported as a warning and otherwise changes nothing
+  FailModes,   \* subset of BOOLEAN: whether, in a run, every destruction attempt fails (the resources were removed
+               \* behind the tracker's back: unlink raises); a failed destruction is reported as a warning and
+               \* otherwise changes nothing
+  \* @type: Set(Bool);
+  StrictModes  \* subset of BOOLEAN: whether the tracker runs with warnings turned into errors (-W error is inherited from
+               \* the parent interpreter): the warning of a failed destruction then surfaces as a report of that request --
+               \* and changes nothing else
 
 VARIABLES
   \* @type: <<Str, Seq(Str)>> -> Int;
@@ -41,10 +45,12 @@ VARIABLES
                \* 0 = not counted (never registered, destroyed, or unregistered)
   \* @type: Bool;
   fail,        \* configuration of the run, see FailModes
+  \* @type: Bool;
+  strict,      \* configuration of the run, see StrictModes
   \* @type: Seq(Str);
   last         \* history: the line consumed by the last step (<<>> initially, <<"EOF">> for the sweep); hidden by View
-vars == <<reg, alive, cleaned, reported, bal, fail, last>>
-View == <<reg, alive, cleaned, reported, bal, fail>>
+vars == <<reg, alive, cleaned, reported, bal, fail, strict, last>>
+View == <<reg, alive, cleaned, reported, bal, fail, strict>>
 
 \* @type: (Seq(Str)) => Str;
 Cmd(ln)   == ln[1]
@@ -60,7 +66,7 @@ Keys  == Types \X Names
 None2 == <<{}, {}>>
 
 Init == /\ reg = [k \in Keys |-> 0] /\ alive = TRUE /\ cleaned = None2 /\ reported = FALSE
-        /\ bal = [k \in Keys |-> 0] /\ last = <<>> /\ fail \in FailModes
+        /\ bal = [k \in Keys |-> 0] /\ last = <<>> /\ fail \in FailModes /\ strict \in StrictModes
 
 -----------------------------------------------------------------------------
 (* ghost update, in the property's words *)
@@ -75,7 +81,7 @@ GhostRequest(ln) ==
 (* the code: one iteration of the `while True` loop of main() *)
 Report == /\ reported' = TRUE /\ cleaned' = None2 /\ UNCHANGED reg
 Consume(ln) ==
-  /\ alive /\ alive' = TRUE /\ last' = ln /\ UNCHANGED fail
+  /\ alive /\ alive' = TRUE /\ last' = ln /\ UNCHANGED <<fail, strict>>
   /\ GhostRequest(ln)
   /\ IF ~Decodable(ln) THEN Report                                   \* UnicodeDecodeError
      ELSE IF Cmd(ln) = "PROBE" THEN /\ reported' = FALSE /\ cleaned' = None2 /\ UNCHANGED reg
@@ -88,13 +94,16 @@ Consume(ln) ==
               ELSE /\ reg' = [reg EXCEPT ![k] = 0] /\ reported' = FALSE /\ cleaned' = None2
          [] Cmd(ln) = "MAYBE_UNLINK" ->
               IF reg[k] = 0 THEN Report                              \* KeyError on -= 1
-              ELSE /\ reg' = [reg EXCEPT ![k] = @ - 1] /\ reported' = FALSE
+              ELSE /\ reg' = [reg EXCEPT ![k] = @ - 1]
                    /\ cleaned' = IF reg[k] = 1 THEN <<{k}, {}>> ELSE None2
+                   \* the name is forgotten BEFORE the destruction is attempted: a failing attempt, even one whose
+                   \* warning is an error, leaves the registry as a successful one does
+                   /\ reported' = (reg[k] = 1 /\ fail /\ strict)
          [] OTHER -> Report                                          \* RuntimeError: unrecognized command
 
 (* EOF: every writer is gone; sweep what is still counted, folders after everything else *)
 Eof ==
-  /\ alive /\ alive' = FALSE /\ last' = <<"EOF">> /\ UNCHANGED fail
+  /\ alive /\ alive' = FALSE /\ last' = <<"EOF">> /\ UNCHANGED <<fail, strict>>
   /\ cleaned' = << {k \in Keys : reg[k] > 0 /\ k[1] # "folder"}, {k \in Keys : reg[k] > 0 /\ k[1] = "folder"} >>
   /\ reg' = [k \in Keys |-> 0] /\ reported' = FALSE
   /\ bal' = [k \in Keys |-> 0]
@@ -132,7 +141,7 @@ BadLinesAreInert ==
                          /\ bal[<<RType(ln), Name(ln)>>] = 0
         IN IF ~Valid(ln) \/ uncounted
            THEN reported' /\ reg' = reg /\ alive' /\ cleaned' = None2
-           ELSE ~reported' ]_vars
+           ELSE reported' <=> (fail /\ strict /\ cleaned'[1] # {}) ]_vars   \* (the failed destruction of a strict run)
 \* nothing is ever cleaned once the tracker has ended
 DeadIsSilent == [][ ~alive => UNCHANGED vars ]_vars
 =============================================================================
